@@ -143,6 +143,8 @@ func c02Open(text []byte, cfgs []c02Config) ([]c02Opened, func(), error) {
 	return out, cleanup, nil
 }
 
+func setSeparate(v bool) { db.SeparateBitMap = v }
+
 // c02Answer renders what a configuration does with a query, as a comparable string.
 func c02Answer(o c02Opened, q c02Query, maxAns int) string {
 	db.SeparateBitMap = o.cfg.Separate
